@@ -446,6 +446,13 @@ pub fn gen_session(seed: u64, index: u64, c: &Corpus) -> Session {
     for _ in 0..r.range(1, 6) {
         keys.push(r.pick(&c.faults).clone());
     }
+    // broken relatives of this session's own items: more error paths, some with two problems at once
+    for _ in 0..r.below(5) {
+        let base = r.below(fault_lo.max(1));
+        if let Some(b) = workload::breaker(&keys[base].clone(), &mut r) {
+            keys.push(b);
+        }
+    }
     let fault_hi = keys.len();
 
     let mut reqs = Vec::with_capacity(len);
